@@ -17,6 +17,8 @@ LEVEL_TEXT = ('Weak structural claim only: the pool path merges exactly the coun
 
 
 def run(ctx):
+    from ..persist import rule_P8
+    rule_P8(ctx)      # ... also after a checkpoint round trip of the networks
     from ..persist import rule_P12k
     rule_P12k(ctx)      # ordered members are never rebuilt from the (alphabetical) group names
     prog = ctx.program
